@@ -395,7 +395,7 @@
 	}
 
 	// ------------------------------------------------------------------ import kernel: subnet split (C17)
-	/// @ob subnet.split_inverts_to_bytes @props C17 @kind forall @tier quick @timeout 900 @features "x509-parser" @bound "IPv4 subtree of 8 symbolic bytes; lengths 7 and 9 skipped" @fns rcgen::CertificateParams::convert_x509_general_subtrees,rcgen::CidrSubnet::to_bytes
+	/// @ob subnet.split_inverts_to_bytes @props C17,C10 @kind forall @tier quick @timeout 900 @features "x509-parser" @bound "IPv4 subtree of 8 symbolic bytes; lengths 7 and 9 skipped" @fns rcgen::CertificateParams::convert_x509_general_subtrees,rcgen::CidrSubnet::to_bytes
 	#[cfg(feature = "x509-parser")]
 	#[kani::proof]
 	#[kani::unwind(34)]
@@ -465,6 +465,36 @@
 				assert!(ki.len() == 3 && ki[0] == id[0] && ki[1] == id[1] && ki[2] == id[2], "reported key identifier = configured derivation");
 				core::mem::forget(c);
 			},
+			Err(_) => assert!(false),
+		}
+	}
+
+	/// @ob subnet.split_inverts_to_bytes.v6 @props C17,C10 @kind forall @tier quick @timeout 900 @features "x509-parser" @bound "IPv6 subtree of 32 symbolic bytes; lengths 31 and 33 skipped" @fns rcgen::CertificateParams::convert_x509_general_subtrees,rcgen::CidrSubnet::to_bytes
+	#[cfg(feature = "x509-parser")]
+	#[kani::proof]
+	#[kani::unwind(40)]
+	fn subnet_split_inverts_to_bytes_v6() {
+		use x509_parser::extensions::{GeneralName, GeneralSubtree as XSubtree};
+		let b: [u8; 33] = kani::any();
+		kani::cover!(true, "reachable");
+		let trees = [XSubtree { base: GeneralName::IPAddress(&b[..32]) }];
+		match CertificateParams::convert_x509_general_subtrees(&trees) {
+			Ok(v) => {
+				assert!(v.len() == 1);
+				match &v[0] {
+					GeneralSubtree::IpAddress(CidrSubnet::V6(a, m)) => {
+						let mut i = 0;
+						while i < 16 { assert!(a[i] == b[i] && m[i] == b[16 + i], "address first, mask second"); i += 1; }
+					},
+					_ => assert!(false, "32 octets are an IPv6 subnet"),
+				}
+				core::mem::forget(v);
+			},
+			Err(_) => assert!(false),
+		}
+		let odd = [XSubtree { base: GeneralName::IPAddress(&b[..31]) }, XSubtree { base: GeneralName::IPAddress(&b[..33]) }];
+		match CertificateParams::convert_x509_general_subtrees(&odd) {
+			Ok(v) => { assert!(v.is_empty(), "other lengths are not recoverable and are skipped"); },
 			Err(_) => assert!(false),
 		}
 	}
